@@ -174,9 +174,16 @@ def run(ctx):
                     if os.path.exists(os.path.join(vlib.LEAN, m.replace(".", "/") + ".lean"))])
     if not ctx.build_harness():
         return ctx.finish("translation_validation", {"programs": 0, "disagreements_checked": 0, "samples": []}, [], "lake build")
+    import time as _t
+    _ph = {}
+    _t0 = _t.time()
     progs, feats = collect(ctx)
+    _ph["collect(harness)"] = round(_t.time() - _t0, 1); _t0 = _t.time()
     progs = evaluate(ctx, progs)
+    _ph["evaluate(sem of every stage)"] = round(_t.time() - _t0, 1); _t0 = _t.time()
     gc = gocheck(ctx, [f"{pid}\t{d['stages']['go']}" for pid, d in progs.items() if "go" in d["stages"]])
+    _ph["gocheck"] = round(_t.time() - _t0, 1); _t0 = _t.time()
+    ctx.notes.append(f"phases_s so far: {_ph}")
     n_invalid_go = 0
     n_pprint = 0
     n_prog = n_agree = n_exp = n_exp_ok = n_fuel = n_extern = 0
@@ -334,7 +341,9 @@ def run(ctx):
         ctx.report({"oracle": "stagewise", "first_divergent_stage": div, "kind": kind},
                    f"the {div} stage no longer behaves like the {ref_stage} stage ({blame})", dict(payload, blamed=blame))
     # pipeline composition: composite middle-end model vs the real dumps, fragment of `pipeline_preserves`
+    _t0 = _t.time()
     pipe_cov = c01pipe.evaluate(ctx, progs)
+    _ph['c01pipe'] = round(_t.time() - _t0, 1)
     rejected = sum(1 for d in progs.values() if "reject" in d)
     panics = [d for d in progs.values() if "panic" in d]
     ctx.violations.sort(key=lambda v: len(v[2].get("src") or "x" * 10**6))
@@ -357,7 +366,10 @@ def run(ctx):
         "pipeline_composition": pipe_cov,
     }
     # ---- the Go back end (go/compile.rs): model = implementation, Sem(ANF) vs Go.Sem(Go) on its stream
+    _t0 = _t.time()
     gocomp.add_to(ctx, "C01", cov)
+    _ph["gocomp"] = round(_t.time() - _t0, 1)
+    cov["phases_s"] = _ph
     ctx.assumptions += [
         "SrcSem (lean/GomlVerif/Model/SrcSem.lean) on the real ast::File dumps is the source-level meaning whenever it decides (status not unsupported:…); it is validated, like Go.Sem, by reproducing the outputs recorded from real Go; it starts at ast::File, so CST->AST lowering is trusted here (C11/C12 own it)",
         "Sem (lean/GomlVerif/Model/Sem.lean) is the meaning of the IR stages (and the fallback reference); Go.Sem (Model/GoSem.lean) is our reading of the Go spec for the emitted subset, validated against the outputs recorded from real Go",
